@@ -355,6 +355,9 @@ fn shrink_violations(rep: &mut Report, surface: Surface, seed: u64, thorough: bo
 }
 
 pub fn run(p: &Params, rep: &mut Report) {
+    if p.shard == 6 {
+        super::scale::c01(rep, p.seed);
+    }
     // exhaustive tiny programs: every construction with at most two nested operators over 10 atoms
     let stride = 1;
     let pairs = p.size(600, 10000);
@@ -415,6 +418,10 @@ pub fn run(p: &Params, rep: &mut Report) {
 }
 
 pub fn replay(kind: &str, text: &str, seed: u64, rep: &mut Report) -> bool {
+    if kind == "scale" {
+        super::scale::c01(rep, seed);
+        return true;
+    }
     let surface = match kind {
         "reprog-mgr" => Surface::Mgr,
         "reprog-wrap" => Surface::Wrap,
